@@ -74,6 +74,37 @@ struct JsonW {
         U32 text = doc;
         size_t fired = 0;
         for (auto &f : pending) {
+            if (f.kind == F_COUNT) {
+                // lexical near-miss: a number token replaced by a shape the grammar forbids (what a lenient writer or a
+                // damaged digit run produces), optionally with the text cut right after it
+                static const char *forms[] = {"0x", "0X", "-0x", "0x1F", "0Xg", "1e", "1e+", "1E-", "-", "+1", "01", "-01", ".5", "5.", "1.e3", "0.", "-.", "1e1.5", "0x", "00", "1..2", "0e", "--1", "1e999999999", "0xFFFFFFFFFFFFFFFFF"};
+                std::vector<std::pair<size_t, size_t>> toks;
+                bool in_str = false;
+                for (size_t i = 0; i < text.size(); i++) {
+                    char32_t c = text[i];
+                    if (in_str) {
+                        if (c == '\\') i++;
+                        else if (c == '"') in_str = false;
+                    } else if (c == '"') in_str = true;
+                    else if (c == '-' || (c >= '0' && c <= '9')) {
+                        size_t e = i;
+                        while (e < text.size() && (text[e] == '-' || text[e] == '+' || text[e] == '.' || text[e] == 'e' || text[e] == 'E' || (text[e] >= '0' && text[e] <= '9'))) e++;
+                        toks.emplace_back(i, e);
+                        i = e - 1;
+                    }
+                }
+                if (toks.empty()) continue;
+                auto        tk   = toks[(size_t)(f.pos % toks.size())];
+                const char *form = forms[(size_t)(f.arg % (sizeof(forms) / sizeof(forms[0])))];
+                U32         rep;
+                for (const char *p = form; *p; p++) rep.push_back((char32_t)*p);
+                text.replace(tk.first, tk.second - tk.first, rep);
+                if (f.unit & 1) text.resize(tk.first + rep.size()); // torn right after the token
+                fired++;
+                cx.faults_fired++;
+                qsim::probe("json.fault.number-near-miss");
+                continue;
+            }
             if (apply_fault(text, f)) {
                 fired++;
                 cx.faults_fired++;
@@ -181,6 +212,36 @@ struct JsonW {
             t.push_back((char32_t)(0xA0 & unit_mask<C>()));
             expect_rejected(t, "suffix", "0xA0");
         }
+        // units that merely LOOK like whitespace to a careless test (low byte 0x20/0x09/0x0A/0x0D, Unicode spaces):
+        // as a suffix and between tokens they make the text something other than one value
+        if (!cx.failed) {
+            static const uint32_t lookalikes[] = {0x0B, 0x0C, 0x1F, 0x85, 0xA0, 0x0120, 0x0109, 0x010A, 0x010D, 0x2009, 0x200A, 0x2020, 0x2028,
+                                                  0x3000, 0x4E0A, 0xFEFF, 0xFF20, 0x10020, 0x1F60D, 0x10109, 0x80000020u};
+            std::vector<size_t> seps; // positions right after a structural separator (outside strings)
+            {
+                bool in_str = false;
+                for (size_t i = 0; i < n; i++) {
+                    char32_t c = doc[i];
+                    if (in_str) {
+                        if (c == '\\') i++;
+                        else if (c == '"') in_str = false;
+                    } else if (c == '"') in_str = true;
+                    else if (c == ',' || c == ':' || c == '[' || c == '{') seps.push_back(i + 1);
+                }
+            }
+            for (size_t k = 0; k < sizeof(lookalikes) / sizeof(lookalikes[0]) && !cx.failed; k++) {
+                char32_t u = (char32_t)(lookalikes[k] & unit_mask<C>());
+                if (u == ' ' || u == '\t' || u == '\n' || u == '\r') continue; // became real whitespace in this width
+                U32 t = doc;
+                t.push_back(u);
+                expect_rejected(t, "suffix", "whitespace look-alike " + std::to_string((unsigned)u));
+                if (!cx.failed && !seps.empty()) {
+                    U32 t2 = doc;
+                    t2.insert(t2.begin() + (long)seps[((size_t)op.a[1] + k) % seps.size()], u);
+                    expect_rejected(t2, "inserted", "whitespace look-alike " + std::to_string((unsigned)u) + " between tokens");
+                }
+            }
+        }
         // duplicated write / stale tail of an older longer document
         if (!cx.failed) expect_rejected(doc + doc, "concat", "D ++ D");
         if (!cx.failed && !op.s.empty()) {
@@ -221,7 +282,7 @@ struct JsonW {
                 break;
             case J_FAULT: {
                 Fault f;
-                f.kind = (int)((uint64_t)op.a[0] % F_COUNT);
+                f.kind = (int)((uint64_t)op.a[0] % (F_COUNT + 1));
                 f.pos  = (uint64_t)op.a[1];
                 f.arg  = (uint64_t)op.a[2];
                 f.unit = (uint32_t)op.a[3] & unit_mask<C>();
@@ -256,7 +317,7 @@ static std::vector<size_t> boundaries(const U32 &t) {
 static void gen_fault(Plan &plan, Rng &r, const U32 &doc, int width, const U32 &other) {
     Op op;
     op.kind = J_FAULT;
-    static const int kinds[] = {F_TRUNCATE, F_TRUNCATE, F_FLIP, F_FLIP, F_FLIP, F_DROP, F_DUP, F_SWAP, F_CONCAT, F_STALE_TAIL, F_REPLACE_CLOSER, F_REMOVE_CLOSER, F_INSERT, F_INSERT};
+    static const int kinds[] = {F_TRUNCATE, F_TRUNCATE, F_FLIP, F_FLIP, F_FLIP, F_DROP, F_DUP, F_SWAP, F_CONCAT, F_STALE_TAIL, F_REPLACE_CLOSER, F_REMOVE_CLOSER, F_INSERT, F_INSERT, F_COUNT, F_COUNT};
     op.a[0] = kinds[r.below(sizeof(kinds) / sizeof(int))];
     std::vector<size_t> b = boundaries(doc);
     if (!b.empty() && r.chance(1, 2))
@@ -267,6 +328,15 @@ static void gen_fault(Plan &plan, Rng &r, const U32 &doc, int width, const U32 &
     op.a[3] = (int64_t)fault_unit(r, width);
     op.s.push_back(pack_units(other));
     plan.ops.push_back(op);
+    // a torn write often ends right where the damage is: cut the text just after a flipped / inserted unit
+    if ((op.a[0] == F_FLIP || op.a[0] == F_INSERT) && r.chance(1, 3)) {
+        Op cut;
+        cut.kind = J_FAULT;
+        cut.a[0] = F_TRUNCATE;
+        cut.a[1] = op.a[1] + 1 + (int64_t)r.below(2);
+        cut.s.push_back(pack_units(U32()));
+        plan.ops.push_back(cut);
+    }
 }
 
 static void generate_mix(Plan &plan, uint64_t seed, int tier, bool enum_only) {
